@@ -1,1 +1,923 @@
-/-! # C18 — property theorems (to be filled) -/
+import PraatModel.Zero
+import PraatModel.Props.C16
+import PraatModel.Props.C12
+
+/-!
+# C18 — zero-crossing search finds real crossings; splicing keeps audio and text in step
+
+Theorems about `PraatModel/Zero.lean` for recordings of any length, any targets and steps (exact
+arithmetic; times in ticks of `1/(rate·m)` s, see `Zero.lean`).
+-/
+
+open Audio Zero
+
+namespace C18
+
+/-! ## 1. `list.index`, `utils.find` -/
+
+theorem index?_some {β} [BEq β] [LawfulBEq β] (l : List β) (v : β) (i : Nat) (h : index? l v = some i) :
+    i < l.length ∧ l[i]? = some v ∧ ∀ j, j < i → l[j]? ≠ some v := by
+  induction l generalizing i with
+  | nil => simp [index?] at h
+  | cons x xs ih =>
+    unfold index? at h
+    by_cases hx : (x == v) = true
+    · rw [if_pos hx] at h
+      cases h
+      exact ⟨by simp, by simp [eq_of_beq hx], by intro j hj; omega⟩
+    · rw [if_neg hx] at h
+      cases hr : index? xs v with
+      | none => rw [hr] at h; simp at h
+      | some k =>
+        rw [hr] at h
+        simp only [Option.map_some, Option.some.injEq] at h
+        subst h
+        obtain ⟨h1, h2, h3⟩ := ih k hr
+        refine ⟨by simp; omega, by simpa using h2, ?_⟩
+        intro j hj
+        cases j with
+        | zero =>
+          simp only [List.getElem?_cons_zero, ne_eq, Option.some.injEq]
+          intro hxe; apply hx; rw [hxe]; exact beq_self_eq_true v
+        | succ j => simpa using h3 j (by omega)
+
+theorem index?_none {β} [BEq β] [LawfulBEq β] (l : List β) (v : β) : index? l v = none ↔ v ∉ l := by
+  induction l with
+  | nil => simp [index?]
+  | cons x xs ih =>
+    unfold index?
+    by_cases hx : (x == v) = true
+    · rw [if_pos hx]; simp [eq_of_beq hx]
+    · rw [if_neg hx]
+      have hne : ¬ v = x := by intro h; apply hx; rw [h]; exact beq_self_eq_true x
+      simp [ih, hne]
+
+theorem index?_head {β} [BEq β] [LawfulBEq β] (x : β) (xs : List β) : index? (x :: xs) x = some 0 := by
+  simp [index?]
+
+/-- `utils.find`: the index returned holds the value; forward it is the first such index, with
+`reverse` the last -/
+theorem find_some {β} [BEq β] [LawfulBEq β] (l : List β) (v : β) (rev : Bool) (i : Nat)
+    (h : find l v rev = some i) :
+    i < l.length ∧ l[i]? = some v ∧
+      (rev = false → ∀ j, j < i → l[j]? ≠ some v) ∧ (rev = true → ∀ j, i < j → l[j]? ≠ some v) := by
+  unfold find at h
+  cases rev with
+  | false =>
+    simp only [Bool.false_eq_true, if_false] at h
+    obtain ⟨h1, h2, h3⟩ := index?_some l v i h
+    exact ⟨h1, h2, fun _ => h3, by simp⟩
+  | true =>
+    simp only [if_true] at h
+    cases hr : index? l.reverse v with
+    | none => rw [hr] at h; simp at h
+    | some k =>
+      rw [hr] at h
+      simp only [Option.map_some, Option.some.injEq] at h
+      obtain ⟨h1, h2, h3⟩ := index?_some l.reverse v k hr
+      rw [List.length_reverse] at h1
+      have hi : i < l.length := by omega
+      refine ⟨hi, ?_, by simp, ?_⟩
+      · rw [List.getElem?_reverse h1] at h2
+        have : l.length - 1 - k = i := by omega
+        rw [this] at h2; exact h2
+      · intro _ j hj
+        by_cases hjl : j < l.length
+        · have := h3 (l.length - 1 - j) (by omega)
+          rw [List.getElem?_reverse (by omega)] at this
+          have e : l.length - 1 - (l.length - 1 - j) = j := by omega
+          rw [e] at this; exact this
+        · rw [List.getElem?_eq_none (by omega)]; simp
+
+theorem find_none {β} [BEq β] [LawfulBEq β] (l : List β) (v : β) (rev : Bool) (h : v ∉ l) : find l v rev = none := by
+  unfold find
+  cases rev with
+  | false => simp only [Bool.false_eq_true, if_false]; exact (index?_none l v).2 h
+  | true =>
+    simp only [if_true]
+    rw [(index?_none l.reverse v).2 (by simpa using h)]; rfl
+
+/-! ## 2. sign changes -/
+
+theorem changeList_length (xs : List Int) : (changeList xs).length = xs.length - 1 := by
+  induction xs using changeList.induct with
+  | case1 a b rest ih => simp only [changeList, List.length_cons, ih]; omega
+  | case2 l h =>
+    match l, h with
+    | [], _ => rfl
+    | [_], _ => rfl
+    | a :: b :: rest, h => exact absurd rfl (h a b rest)
+
+theorem changeList_get (xs : List Int) (i : Nat) (h : i + 1 < xs.length) :
+    (changeList xs)[i]? = some (sign (xs.getD i 0) != sign (xs.getD (i + 1) 0)) := by
+  induction xs using changeList.induct generalizing i with
+  | case1 a b rest ih =>
+    cases i with
+    | zero => simp [changeList]
+    | succ i =>
+      simp only [changeList, List.getElem?_cons_succ]
+      have := ih i (by simp at h ⊢; omega)
+      simpa using this
+  | case2 l hl =>
+    match l, hl with
+    | [], _ => simp at h
+    | [_], _ => simp at h
+    | a :: b :: rest, hl => exact absurd rfl (hl a b rest)
+
+theorem mem_changeList (xs : List Int) (h : true ∈ changeList xs) :
+    ∃ a ∈ xs, ∃ b ∈ xs, sign a ≠ sign b := by
+  induction xs using changeList.induct with
+  | case1 a b rest ih =>
+    simp only [changeList, List.mem_cons] at h
+    rcases h with h | h
+    · refine ⟨a, by simp, b, by simp, ?_⟩
+      intro he; rw [he] at h; simp at h
+    · obtain ⟨x, hx, y, hy, hxy⟩ := ih h
+      exact ⟨x, List.mem_cons_of_mem _ hx, y, List.mem_cons_of_mem _ hy, hxy⟩
+  | case2 l hl =>
+    match l, hl with
+    | [], _ => simp [changeList] at h
+    | [_], _ => simp [changeList] at h
+    | a :: b :: rest, hl => exact absurd rfl (hl a b rest)
+
+/-! ## 3. (a) crossing_genuine: an index returned by the window scan is a genuine crossing -/
+
+theorem getD_of_getElem? (xs : List Int) (i : Nat) (v : Int) (h : xs[i]? = some v) : xs.getD i 0 = v := by
+  simp [List.getD, h]
+
+/-- `_getNearestZero`: the sample at the returned index is 0 -/
+theorem nearestZero_zero (xs : List Int) (rev : Bool) (i : Nat) (h : nearestZero xs rev = some i) :
+    i < xs.length ∧ xs.getD i 0 = 0 := by
+  obtain ⟨h1, h2, _⟩ := find_some xs 0 rev i h
+  exact ⟨h1, getD_of_getElem? xs i 0 h2⟩
+
+/-- `_getZeroThresholdCrossing`: the returned index is one of two adjacent samples of different sign -/
+theorem thresholdCrossing_spec (xs : List Int) (rev : Bool) (i : Nat) (h : thresholdCrossing xs rev = some i) :
+    ∃ j, j + 1 < xs.length ∧ sign (xs.getD j 0) ≠ sign (xs.getD (j + 1) 0) ∧ (i = j ∨ i = j + 1) := by
+  unfold thresholdCrossing at h
+  cases hf : find (changeList xs) true rev with
+  | none => rw [hf] at h; simp at h
+  | some j =>
+    rw [hf] at h
+    simp only [Option.map_some, Option.some.injEq] at h
+    obtain ⟨h1, h2, _⟩ := find_some (changeList xs) true rev j hf
+    rw [changeList_length] at h1
+    have hj : j + 1 < xs.length := by omega
+    rw [changeList_get xs j hj] at h2
+    refine ⟨j, hj, ?_, ?_⟩
+    · intro he
+      simp only [Option.some.injEq] at h2
+      rw [he] at h2; simp at h2
+    · unfold closerOfPair at h
+      split at h <;> omega
+
+/-- **crossing_genuine**: whenever the window scan (`_getNearestZero`, else `_getZeroThresholdCrossing`)
+returns index `i`, sample `i` of the window is 0 or differs in sign from its right or left neighbour -/
+theorem crossing_genuine (xs : List Int) (rev : Bool) (i : Nat) (h : nextIdx xs rev = some i) :
+    Genuine xs i := by
+  unfold nextIdx at h
+  cases hz : nearestZero xs rev with
+  | some k =>
+    rw [hz] at h
+    simp only [Option.some.injEq] at h
+    subst h
+    obtain ⟨h1, h2⟩ := nearestZero_zero xs rev k hz
+    exact ⟨h1, Or.inl h2⟩
+  | none =>
+    rw [hz] at h
+    obtain ⟨j, hj, hs, hij⟩ := thresholdCrossing_spec xs rev i h
+    rcases hij with rfl | rfl
+    · exact ⟨by omega, Or.inr (Or.inl ⟨hj, hs⟩)⟩
+    · exact ⟨hj, Or.inr (Or.inr ⟨by omega, by simpa using hs⟩)⟩
+
+/-- a zero in the window is preferred to a sign change -/
+theorem nextIdx_prefers_zero (xs : List Int) (rev : Bool) (h : (0 : Int) ∈ xs) :
+    ∃ i, nextIdx xs rev = some i ∧ xs.getD i 0 = 0 := by
+  unfold nextIdx
+  cases hz : nearestZero xs rev with
+  | some k => exact ⟨k, rfl, (nearestZero_zero xs rev k hz).2⟩
+  | none =>
+    exfalso
+    unfold nearestZero find at hz
+    cases rev with
+    | false =>
+      simp only [Bool.false_eq_true, if_false] at hz
+      exact (index?_none xs 0).1 hz h
+    | true =>
+      simp only [if_true] at hz
+      cases hr : index? xs.reverse 0 with
+      | none => exact (index?_none xs.reverse 0).1 hr (by simpa using h)
+      | some k => rw [hr] at hz; simp at hz
+
+/-- no zero and no sign change in the window: nothing is found -/
+theorem nextIdx_none (xs : List Int) (rev : Bool) (h0 : (0 : Int) ∉ xs) (hs : ∀ a ∈ xs, ∀ b ∈ xs, sign a = sign b) :
+    nextIdx xs rev = none := by
+  unfold nextIdx nearestZero
+  rw [find_none xs 0 rev h0]
+  unfold thresholdCrossing
+  rw [find_none (changeList xs) true rev]
+  · rfl
+  · intro ht
+    obtain ⟨a, ha, b, hb, hab⟩ := mem_changeList xs ht
+    exact hab (hs a ha b hb)
+
+
+/-! ## 4. windows of a recording: Python slices of the sample list -/
+
+theorem slice_length_le (xs : List Int) (i j : Int) (hi : 0 ≤ i) :
+    (slice xs i j).length ≤ xs.length - i.toNat := by
+  have hci : pyClamp xs.length i = min i.toNat xs.length := by
+    unfold pyClamp; rw [if_neg (by omega)]
+  have hcj : pyClamp xs.length j ≤ xs.length := by
+    unfold pyClamp; split <;> omega
+  unfold slice
+  simp only [List.length_drop, List.length_take]
+  rw [hci]
+  omega
+
+theorem slice_getD (xs : List Int) (i j : Int) (hi : 0 ≤ i) (z : Nat) (hz : z < (slice xs i j).length) :
+    (slice xs i j).getD z 0 = xs.getD (i.toNat + z) 0 := by
+  have hlen := slice_length_le xs i j hi
+  have hci : pyClamp xs.length i = i.toNat := by
+    unfold pyClamp; rw [if_neg (by omega)]; omega
+  unfold slice at hz ⊢
+  rw [hci] at hz ⊢
+  simp only [List.length_drop, List.length_take] at hz
+  simp only [List.getD_eq_getElem?_getD, List.getElem?_drop]
+  rw [List.getElem?_take_of_lt (by omega)]
+
+/-- a genuine crossing of a window is a genuine crossing of the recording, at the window's offset -/
+theorem genuine_of_slice (xs : List Int) (i j : Int) (hi : 0 ≤ i) (z : Nat) (h : Genuine (slice xs i j) z) :
+    Genuine xs (i.toNat + z) := by
+  obtain ⟨hz, hc⟩ := h
+  have hlen := slice_length_le xs i j hi
+  refine ⟨by omega, ?_⟩
+  rw [slice_getD xs i j hi z hz] at hc
+  rcases hc with h0 | ⟨h1, h2⟩ | ⟨h1, h2⟩
+  · exact Or.inl h0
+  · rw [slice_getD xs i j hi (z + 1) h1] at h2
+    exact Or.inr (Or.inl ⟨by omega, h2⟩)
+  · rw [slice_getD xs i j hi (z - 1) (by omega)] at h2
+    refine Or.inr (Or.inr ⟨by omega, ?_⟩)
+    have e : i.toNat + z - 1 = i.toNat + (z - 1) := by omega
+    rw [e]; exact h2
+
+theorem mem_of_mem_slice (xs : List Int) (i j : Int) (x : Int) (h : x ∈ slice xs i j) : x ∈ xs := by
+  unfold slice at h
+  exact List.mem_of_mem_take (List.mem_of_mem_drop h)
+
+/-! ## 5. one window of the search -/
+
+theorem getInterval_fst (start d mx : Int) (rev : Bool) :
+    (getInterval start d mx rev).1 = if (if rev = true then start - d else start) < 0 then 0
+      else (if rev = true then start - d else start) := by
+  unfold getInterval
+  cases rev <;> simp only [Bool.false_eq_true, if_false, if_true] <;> split <;> (try split) <;> rfl
+
+theorem getInterval_fst_nonneg (start d mx : Int) (rev : Bool) : 0 ≤ (getInterval start d mx rev).1 := by
+  rw [getInterval_fst]
+  split <;> omega
+
+theorem getInterval_fst_dvd (k start d mx : Int) (rev : Bool) (h1 : k ∣ start) (h2 : k ∣ d) :
+    k ∣ (getInterval start d mx rev).1 := by
+  rw [getInterval_fst]
+  have hs : k ∣ (if rev = true then start - d else start) := by
+    split
+    · exact Int.dvd_sub h1 h2
+    · exact h1
+  generalize (if rev = true then start - d else start) = s0 at hs ⊢
+  split
+  · exact Int.dvd_zero k
+  · exact hs
+
+/-- what a window of the search can return: `start + z` samples, where sample `round(start·rate) + z`
+of the recording is a genuine crossing (`start ≥ 0` is the clamped start of the window) -/
+def Cand (m : Nat) (xs : List Int) (t : Int) : Prop :=
+  ∃ s : Int, ∃ z : Nat, 0 ≤ s ∧ t = s + (z : Int) * (m : Int) ∧ Genuine xs ((roundHalfEven s m).toNat + z)
+
+/-- the same with the window start on a sample position `k` (which divides `m`-tick times) -/
+def CandOn (k : Int) (m : Nat) (xs : List Int) (t : Int) : Prop :=
+  ∃ s : Int, ∃ z : Nat, 0 ≤ s ∧ k ∣ s ∧ t = s + (z : Int) * (m : Int) ∧ Genuine xs ((roundHalfEven s m).toNat + z)
+
+theorem iter_list (m : Nat) (hm : 0 < m) (xs : List Int) (dur start : Int) (within : Bool) (step : Int) (rev : Bool) :
+    ∃ o, iterZeroCrossings (listReader m xs) m dur start within step rev = .ok o ∧
+      (∀ t, o = some t → ∃ z : Nat, t = (getInterval start step dur rev).1 + (z : Int) * (m : Int) ∧
+          Genuine xs ((roundHalfEven (getInterval start step dur rev).1 m).toNat + z)) := by
+  unfold iterZeroCrossings
+  cases within with
+  | false => exact ⟨none, rfl, by intro t ht; cases ht⟩
+  | true =>
+    simp only [Bool.not_true, Bool.false_eq_true, if_false, listReader]
+    refine ⟨_, rfl, ?_⟩
+    intro t ht
+    unfold findNextZeroCrossing at ht
+    cases hn : nextIdx (slice xs (roundHalfEven (getInterval start step dur rev).1 m)
+        (roundHalfEven (getInterval start step dur rev).2 m)) rev with
+    | none => rw [hn] at ht; simp at ht
+    | some z =>
+      rw [hn] at ht
+      simp only [Option.map_some, Option.some.injEq] at ht
+      refine ⟨z, ht.symm, ?_⟩
+      have hg := crossing_genuine _ rev z hn
+      exact genuine_of_slice xs _ _
+        (C16.roundHalfEven_nonneg _ m hm (getInterval_fst_nonneg start step dur rev)) z hg
+
+theorem iter_cand (m : Nat) (hm : 0 < m) (xs : List Int) (dur start : Int) (within : Bool) (step : Int) (rev : Bool) :
+    ∃ o, iterZeroCrossings (listReader m xs) m dur start within step rev = .ok o ∧ ∀ t, o = some t → Cand m xs t := by
+  obtain ⟨o, h1, h2⟩ := iter_list m hm xs dur start within step rev
+  refine ⟨o, h1, ?_⟩
+  intro t ht
+  obtain ⟨z, hz, hg⟩ := h2 t ht
+  exact ⟨_, z, getInterval_fst_nonneg start step dur rev, hz, hg⟩
+
+theorem iter_candOn (k : Int) (m : Nat) (hm : 0 < m) (xs : List Int) (dur start : Int) (within : Bool) (step : Int) (rev : Bool)
+    (h1 : k ∣ start) (h2 : k ∣ step) :
+    ∃ o, iterZeroCrossings (listReader m xs) m dur start within step rev = .ok o ∧ ∀ t, o = some t → CandOn k m xs t := by
+  obtain ⟨o, e1, e2⟩ := iter_list m hm xs dur start within step rev
+  refine ⟨o, e1, ?_⟩
+  intro t ht
+  obtain ⟨z, hz, hg⟩ := e2 t ht
+  exact ⟨_, z, getInterval_fst_nonneg start step dur rev, getInterval_fst_dvd k start step dur rev h1 h2, hz, hg⟩
+
+/-- one round on a plain sample list never raises, and both candidates are crossings -/
+theorem round_list (m : Nat) (hm : 0 < m) (xs : List Int) (dur step a b : Int) :
+    ∃ l r, Zero.round (listReader m xs) m dur step a b = .ok (l, r) ∧
+      (∀ t, l = some t → Cand m xs t) ∧ (∀ t, r = some t → Cand m xs t) := by
+  obtain ⟨l, hl, hlc⟩ := iter_cand m hm xs dur a (decide (0 < a)) (step + m) true
+  obtain ⟨r, hr, hrc⟩ := iter_cand m hm xs dur b (decide (b + step < dur)) (step + m) false
+  refine ⟨l, r, ?_, hlc, hrc⟩
+  unfold Zero.round; rw [hl]; simp only; rw [hr]
+
+theorem round_list_on (k : Int) (m : Nat) (hm : 0 < m) (xs : List Int) (dur step a b : Int)
+    (hk : k ∣ (m : Int)) (hs : k ∣ step) (ha : k ∣ a) (hb : k ∣ b) :
+    ∃ l r, Zero.round (listReader m xs) m dur step a b = .ok (l, r) ∧
+      (∀ t, l = some t → CandOn k m xs t) ∧ (∀ t, r = some t → CandOn k m xs t) := by
+  obtain ⟨l, hl, hlc⟩ := iter_candOn k m hm xs dur a (decide (0 < a)) (step + m) true ha (Int.dvd_add hs hk)
+  obtain ⟨r, hr, hrc⟩ := iter_candOn k m hm xs dur b (decide (b + step < dur)) (step + m) false hb (Int.dvd_add hs hk)
+  refine ⟨l, r, ?_, hlc, hrc⟩
+  unfold Zero.round; rw [hl]; simp only; rw [hr]
+
+/-! ## 6. (f) `chooseClosestTime` -/
+
+/-- **closest**: the value returned is one of the candidates, no candidate is closer to the target,
+and on a tie the first (left) candidate wins -/
+theorem chooseClosest_spec (target : Int) (a b : Option Int) (r : Int) (h : chooseClosestTime target a b = .ok r) :
+    (a = some r ∨ b = some r) ∧
+    (∀ x, a = some x → (r - target).natAbs ≤ (x - target).natAbs) ∧
+    (∀ x, b = some x → (r - target).natAbs ≤ (x - target).natAbs) ∧
+    (∀ x y, a = some x → b = some y → (x - target).natAbs = (y - target).natAbs → r = x) := by
+  cases a with
+  | none =>
+    cases b with
+    | none => simp [chooseClosestTime] at h
+    | some y =>
+      simp only [chooseClosestTime, Except.ok.injEq] at h
+      subst h; simp
+  | some x =>
+    cases b with
+    | none =>
+      simp only [chooseClosestTime, Except.ok.injEq] at h
+      subst h; simp
+    | some y =>
+      simp only [chooseClosestTime] at h
+      split at h
+      · simp only [Except.ok.injEq] at h; subst h
+        refine ⟨Or.inl rfl, ?_, ?_, ?_⟩
+        · intro x' hx'; cases hx'; exact Nat.le_refl _
+        · intro y' hy'; cases hy'; assumption
+        · intro x' y' hx' _ _; cases hx'; rfl
+      · simp only [Except.ok.injEq] at h; subst h
+        refine ⟨Or.inr rfl, ?_, ?_, ?_⟩
+        · intro x' hx'; cases hx'; omega
+        · intro y' hy'; cases hy'; exact Nat.le_refl _
+        · intro x' y' hx' hy' he; cases hx'; cases hy'; omega
+
+theorem chooseClosest_ok_of_some (target : Int) (a b : Option Int) (h : (a.isSome || b.isSome) = true) :
+    ∃ r, chooseClosestTime target a b = .ok r := by
+  cases a with
+  | none =>
+    cases b with
+    | none => simp at h
+    | some y => exact ⟨y, rfl⟩
+  | some x =>
+    cases b with
+    | none => exact ⟨x, rfl⟩
+    | some y =>
+      simp only [chooseClosestTime]
+      split
+      · exact ⟨x, rfl⟩
+      · exact ⟨y, rfl⟩
+
+/-- no candidate on either side is the only way to `ArgumentError` (the loop never calls it so) -/
+theorem chooseClosest_error (target : Int) (a b : Option Int) (e : Err) (h : chooseClosestTime target a b = .error e) :
+    a = none ∧ b = none ∧ e = .ArgumentError := by
+  cases a with
+  | none =>
+    cases b with
+    | none => simp only [chooseClosestTime, Except.error.injEq] at h; exact ⟨rfl, rfl, h.symm⟩
+    | some y => simp [chooseClosestTime] at h
+  | some x =>
+    cases b with
+    | none => simp [chooseClosestTime] at h
+    | some y => simp only [chooseClosestTime] at h; split at h <;> cases h
+
+/-! ## 7. the loop: what it returns -/
+
+/-- a value returned by the loop is the choice between the two candidates of some round whose cursors
+satisfy every invariant of the cursor update -/
+theorem loop_ok_inv (rd : Reader) (m : Nat) (dur target step : Int) (Inv : Int → Int → Prop)
+    (hstep : ∀ a b, Inv a b → Inv (a - step) (b + step)) (t : Int) :
+    ∀ fuel left right, Inv left right → loop rd m dur target step fuel left right = some (.ok t) →
+      ∃ a b l r, Inv a b ∧ Zero.round rd m dur step a b = .ok (l, r) ∧ (l.isSome || r.isSome) = true ∧
+        chooseClosestTime target l r = .ok t := by
+  intro fuel
+  induction fuel with
+  | zero => intro left right _ h; simp [loop] at h
+  | succ f ih =>
+    intro left right hinv h
+    unfold loop at h
+    cases hr : Zero.round rd m dur step left right with
+    | error e => rw [hr] at h; simp at h
+    | ok p =>
+      obtain ⟨l, r⟩ := p
+      rw [hr] at h
+      simp only at h
+      by_cases hs : (l.isSome || r.isSome) = true
+      · rw [if_pos hs] at h
+        simp only [Option.some.injEq] at h
+        exact ⟨left, right, l, r, hinv, hr, hs, h⟩
+      · rw [if_neg hs] at h
+        by_cases hx : left < 0 ∧ dur < right
+        · rw [if_pos hx] at h; simp at h
+        · rw [if_neg hx] at h
+          exact ih _ _ (hstep _ _ hinv) h
+
+/-- an error returned by the loop is an error of a window read, `FindZeroCrossingError`, or never
+(`chooseClosestTime` is only called with a candidate) -/
+theorem loop_error (rd : Reader) (m : Nat) (dur target step : Int) (e : Err) :
+    ∀ fuel left right, loop rd m dur target step fuel left right = some (.error e) →
+      e = .FindZeroCrossingError ∨ ∃ a b, Zero.round rd m dur step a b = .error e := by
+  intro fuel
+  induction fuel with
+  | zero => intro left right h; simp [loop] at h
+  | succ f ih =>
+    intro left right h
+    unfold loop at h
+    cases hr : Zero.round rd m dur step left right with
+    | error e' =>
+      rw [hr] at h
+      simp only [Option.some.injEq, Except.error.injEq] at h
+      subst h
+      exact Or.inr ⟨left, right, hr⟩
+    | ok p =>
+      obtain ⟨l, r⟩ := p
+      rw [hr] at h
+      simp only at h
+      by_cases hs : (l.isSome || r.isSome) = true
+      · rw [if_pos hs] at h
+        obtain ⟨v, hv⟩ := chooseClosest_ok_of_some target l r hs
+        rw [hv] at h; simp at h
+      · rw [if_neg hs] at h
+        by_cases hx : left < 0 ∧ dur < right
+        · rw [if_pos hx] at h
+          simp only [Option.some.injEq, Except.error.injEq] at h
+          exact Or.inl h.symm
+        · rw [if_neg hx] at h
+          exact ih _ _ h
+
+/-! ## 8. (b) search_terminates -/
+
+/-- more fuel never changes a result -/
+theorem loop_mono (rd : Reader) (m : Nat) (dur target step : Int) (v : Except Err Int) :
+    ∀ fuel left right, loop rd m dur target step fuel left right = some v →
+      ∀ k, loop rd m dur target step (fuel + k) left right = some v := by
+  intro fuel
+  induction fuel with
+  | zero => intro left right h; simp [loop] at h
+  | succ f ih =>
+    intro left right h k
+    have e : f + 1 + k = (f + k) + 1 := by omega
+    rw [e]
+    unfold loop at h ⊢
+    cases hr : Zero.round rd m dur step left right with
+    | error e' => rw [hr] at h; exact h
+    | ok p =>
+      obtain ⟨l, r⟩ := p
+      rw [hr] at h
+      simp only at h ⊢
+      by_cases hs : (l.isSome || r.isSome) = true
+      · rw [if_pos hs] at h ⊢; exact h
+      · rw [if_neg hs] at h ⊢
+        by_cases hx : left < 0 ∧ dur < right
+        · rw [if_pos hx] at h ⊢; exact h
+        · rw [if_neg hx] at h ⊢
+          exact ih _ _ h k
+
+/-- the termination measure: with `fuel` rounds left the loop certainly leaves if the left cursor is
+below `(fuel-1)·step` and the right cursor within `(fuel-1)·step` of the end -/
+theorem loop_terminates (rd : Reader) (m : Nat) (dur target step : Int) :
+    ∀ (fuel : Nat) (left right : Int), left < (fuel : Int) * step → dur - right < (fuel : Int) * step →
+      loop rd m dur target step (fuel + 1) left right ≠ none := by
+  intro fuel
+  induction fuel with
+  | zero =>
+    intro left right h1 h2
+    simp only [Int.natCast_zero, Int.zero_mul] at h1 h2
+    unfold loop
+    cases hr : Zero.round rd m dur step left right with
+    | error e' => simp
+    | ok p =>
+      obtain ⟨l, r⟩ := p
+      simp only
+      by_cases hs : (l.isSome || r.isSome) = true
+      · rw [if_pos hs]; simp
+      · rw [if_neg hs, if_pos ⟨h1, by omega⟩]; simp
+  | succ f ih =>
+    intro left right h1 h2
+    unfold loop
+    cases hr : Zero.round rd m dur step left right with
+    | error e' => simp
+    | ok p =>
+      obtain ⟨l, r⟩ := p
+      simp only
+      by_cases hs : (l.isSome || r.isSome) = true
+      · rw [if_pos hs]; simp
+      · rw [if_neg hs]
+        by_cases hx : left < 0 ∧ dur < right
+        · rw [if_pos hx]; simp
+        · rw [if_neg hx]
+          have e : ((f + 1 : Nat) : Int) * step = (f : Int) * step + step := by
+            rw [Int.natCast_add, Int.add_mul]; simp
+          rw [e] at h1 h2
+          exact ih _ _ (by omega) (by omega)
+
+theorem searchBound_spec (dur target step : Int) (hs : 0 < step) :
+    ∃ f : Nat, searchBound dur target step = f + 1 ∧ target < (f : Int) * step ∧ dur - target < (f : Int) * step := by
+  unfold searchBound
+  refine ⟨((max (max target (dur - target)) 0) / step).toNat + 1, rfl, ?_⟩
+  generalize hM : max (max target (dur - target)) 0 = M
+  have hM0 : 0 ≤ M := by omega
+  have hq : 0 ≤ M / step := Int.ediv_nonneg hM0 (by omega)
+  have hlt : M < step * (M / step) + step := Int.lt_mul_ediv_self_add hs
+  have e : (((M / step).toNat + 1 : Nat) : Int) * step = step * (M / step) + step := by
+    rw [Int.natCast_add, Int.toNat_of_nonneg hq, Int.add_mul, Int.mul_comm]; simp
+  rw [e]
+  omega
+
+/-- **search_terminates**: for every reader, recording, target and step the loop leaves within
+`searchBound dur target step = max(target, dur - target, 0) / step + 2` rounds: the fuelled function
+with at least that much fuel never runs out of fuel and returns what `search` returns -/
+theorem search_terminates (rd : Reader) (m : Nat) (hm : 0 < m) (dur target step : Int) (n : Nat)
+    (hn : searchBound dur target step ≤ n) :
+    findFuel rd m dur target step n = some (search rd m dur target step) := by
+  have key : ∀ n, searchBound dur target step ≤ n → ∃ v, findFuel rd m dur target step n = some v := by
+    intro n hn
+    unfold findFuel
+    by_cases hs : step < 2 * (m : Int)
+    · rw [if_pos hs]; exact ⟨_, rfl⟩
+    · rw [if_neg hs]
+      obtain ⟨f, hf, h1, h2⟩ := searchBound_spec dur target step (by omega)
+      have hne := loop_terminates rd m dur target step f target target h1 h2
+      cases hl : loop rd m dur target step (f + 1) target target with
+      | none => exact absurd hl hne
+      | some v =>
+        have := loop_mono rd m dur target step v (f + 1) target target hl (n - (f + 1))
+        have e : f + 1 + (n - (f + 1)) = n := by omega
+        rw [e] at this
+        exact ⟨v, this⟩
+  obtain ⟨v0, hv0⟩ := key _ (Nat.le_refl _)
+  obtain ⟨v, hv⟩ := key n hn
+  have hsearch : search rd m dur target step = v0 := by unfold search; rw [hv0]
+  rw [hsearch, hv]
+  -- both are the same value: more fuel does not change a result
+  unfold findFuel at hv hv0
+  by_cases hs : step < 2 * (m : Int)
+  · rw [if_pos hs] at hv hv0; rw [← hv, ← hv0]
+  · rw [if_neg hs] at hv hv0
+    have := loop_mono rd m dur target step v0 _ target target hv0 (n - searchBound dur target step)
+    have e : searchBound dur target step + (n - searchBound dur target step) = n := by omega
+    rw [e, hv] at this
+    exact this
+
+/-- the search as a fact about the loop: it is the loop's value for every sufficient fuel -/
+theorem search_eq_loop (rd : Reader) (m : Nat) (hm : 0 < m) (dur target step : Int) (hs : 2 * (m : Int) ≤ step) :
+    loop rd m dur target step (searchBound dur target step) target target = some (search rd m dur target step) := by
+  have := search_terminates rd m hm dur target step _ (Nat.le_refl _)
+  unfold findFuel at this
+  rw [if_neg (by omega)] at this
+  exact this
+
+
+/-! ## 9. the search on a recording (plain sample list): what it returns -/
+
+/-- the duration of the list in ticks -/
+abbrev durOf (m : Nat) (xs : List Int) : Int := (xs.length : Int) * (m : Int)
+
+theorem searchList_small_step (m : Nat) (xs : List Int) (target step : Int) (h : step < 2 * (m : Int)) :
+    searchList m xs target step = .error .ArgumentError := by
+  unfold searchList search findFuel
+  rw [if_pos h]
+
+theorem searchList_loop (m : Nat) (hm : 0 < m) (xs : List Int) (target step : Int) (hs : 2 * (m : Int) ≤ step) :
+    loop (listReader m xs) m (durOf m xs) target step (searchBound (durOf m xs) target step) target target =
+      some (searchList m xs target step) :=
+  search_eq_loop (listReader m xs) m hm (durOf m xs) target step hs
+
+/-- a value returned by the search is the choice between the two candidates of one round -/
+theorem searchList_ok (m : Nat) (hm : 0 < m) (xs : List Int) (target step t : Int)
+    (Inv : Int → Int → Prop) (h0 : Inv target target) (hstep : ∀ a b, Inv a b → Inv (a - step) (b + step))
+    (h : searchList m xs target step = .ok t) :
+    2 * (m : Int) ≤ step ∧
+    ∃ a b l r, Inv a b ∧ Zero.round (listReader m xs) m (durOf m xs) step a b = .ok (l, r) ∧
+      (l.isSome || r.isSome) = true ∧ chooseClosestTime target l r = .ok t := by
+  by_cases hs : step < 2 * (m : Int)
+  · rw [searchList_small_step m xs target step hs] at h; cases h
+  · have hs' : 2 * (m : Int) ≤ step := by omega
+    refine ⟨hs', ?_⟩
+    have hl := searchList_loop m hm xs target step hs'
+    rw [h] at hl
+    exact loop_ok_inv _ m _ target step Inv hstep t _ target target h0 hl
+
+/-- **closest**: the value returned is the closer of the two candidates found in the first round that
+finds anything (a tie goes to the left one) -/
+theorem search_closest (m : Nat) (hm : 0 < m) (xs : List Int) (target step t : Int)
+    (h : searchList m xs target step = .ok t) :
+    ∃ a b l r, Zero.round (listReader m xs) m (durOf m xs) step a b = .ok (l, r) ∧
+      (l = some t ∨ r = some t) ∧
+      (∀ x, l = some x → (t - target).natAbs ≤ (x - target).natAbs) ∧
+      (∀ x, r = some x → (t - target).natAbs ≤ (x - target).natAbs) ∧
+      (∀ x y, l = some x → r = some y → (x - target).natAbs = (y - target).natAbs → t = x) := by
+  obtain ⟨_, a, b, l, r, _, hr, _, hc⟩ :=
+    searchList_ok m hm xs target step t (fun _ _ => True) trivial (fun _ _ _ => trivial) h
+  exact ⟨a, b, l, r, hr, chooseClosest_spec target l r t hc⟩
+
+/-- the value returned is `start + z` samples for a window start `start ≥ 0`, and sample
+`round(start·rate) + z` of the recording is a genuine crossing -/
+theorem search_cand (m : Nat) (hm : 0 < m) (xs : List Int) (target step t : Int)
+    (h : searchList m xs target step = .ok t) : Cand m xs t := by
+  obtain ⟨_, a, b, l, r, _, hr, _, hc⟩ :=
+    searchList_ok m hm xs target step t (fun _ _ => True) trivial (fun _ _ _ => trivial) h
+  obtain ⟨l', r', hr', hl', hrr'⟩ := round_list m hm xs (durOf m xs) step a b
+  rw [hr] at hr'
+  simp only [Except.ok.injEq, Prod.mk.injEq] at hr'
+  obtain ⟨rfl, rfl⟩ := hr'
+  rcases (chooseClosest_spec target l r t hc).1 with h1 | h1
+  · exact hl' t h1
+  · exact hrr' t h1
+
+theorem cand_range (m : Nat) (hm : 0 < m) (xs : List Int) (t : Int) (h : Cand m xs t) :
+    0 ≤ t ∧ t < durOf m xs := by
+  obtain ⟨s, z, hs, ht, hg⟩ := h
+  have hq0 := C16.roundHalfEven_nonneg s m hm hs
+  have hspec := C16.roundHalfEven_spec s m hm
+  unfold C16.IsRoundHalfEven at hspec
+  generalize roundHalfEven s m = q at *
+  have hlt : q.toNat + z < xs.length := hg.1
+  have hzm : 0 ≤ (z : Int) * (m : Int) := Int.mul_nonneg (by omega) (by omega)
+  refine ⟨by omega, ?_⟩
+  have hle : (q + z + 1) * (m : Int) ≤ (xs.length : Int) * (m : Int) :=
+    Int.mul_le_mul_of_nonneg_right (by omega) (by omega)
+  rw [Int.add_mul, Int.add_mul, Int.one_mul] at hle
+  show t < (xs.length : Int) * (m : Int)
+  omega
+
+/-- **result_in_range**: whatever the target and the step, a value returned lies in `[0, duration]`
+(indeed strictly before the end: it addresses an existing sample) -/
+theorem result_in_range (m : Nat) (hm : 0 < m) (xs : List Int) (target step t : Int)
+    (h : searchList m xs target step = .ok t) : 0 ≤ t ∧ t ≤ durOf m xs := by
+  have := cand_range m hm xs t (search_cand m hm xs target step t h)
+  omega
+
+/-- the crossing behind a returned value, for arbitrary targets and steps -/
+theorem result_genuine_general (m : Nat) (hm : 0 < m) (xs : List Int) (target step t : Int)
+    (h : searchList m xs target step = .ok t) :
+    ∃ s : Int, ∃ z : Nat, 0 ≤ s ∧ t = s + (z : Int) * (m : Int) ∧ Genuine xs ((roundHalfEven s m).toNat + z) :=
+  search_cand m hm xs target step t h
+
+/-- **result_on_grid** + genuine crossing: when the target is a sample position and the step a whole
+number of samples, the value returned is a sample position `k·m`, and sample `k` of the recording
+is zero or differs in sign from a neighbour -/
+theorem result_on_grid (m : Nat) (hm : 0 < m) (xs : List Int) (target step t : Int)
+    (htarget : (m : Int) ∣ target) (hwhole : (m : Int) ∣ step)
+    (h : searchList m xs target step = .ok t) :
+    (m : Int) ∣ t ∧ Genuine xs (t / (m : Int)).toNat := by
+  obtain ⟨_, a, b, l, r, ⟨ha, hb⟩, hr, _, hc⟩ :=
+    searchList_ok m hm xs target step t (fun a b => (m : Int) ∣ a ∧ (m : Int) ∣ b) ⟨htarget, htarget⟩
+      (fun a b h => ⟨Int.dvd_sub h.1 hwhole, Int.dvd_add h.2 hwhole⟩) h
+  obtain ⟨l', r', hr', hl', hrr'⟩ := round_list_on (m : Int) m hm xs (durOf m xs) step a b (Int.dvd_refl _) hwhole ha hb
+  rw [hr] at hr'
+  simp only [Except.ok.injEq, Prod.mk.injEq] at hr'
+  obtain ⟨rfl, rfl⟩ := hr'
+  have hcand : CandOn (m : Int) m xs t := by
+    rcases (chooseClosest_spec target l r t hc).1 with h1 | h1
+    · exact hl' t h1
+    · exact hrr' t h1
+  obtain ⟨s, z, hs0, ⟨c, hc'⟩, ht, hg⟩ := hcand
+  have hmpos : (0 : Int) < m := by omega
+  have hsm : s = c * (m : Int) := by rw [hc', Int.mul_comm]
+  have hc0 : 0 ≤ c := by
+    by_cases hc0 : 0 ≤ c
+    · exact hc0
+    · exfalso
+      have : (c + 1) * (m : Int) ≤ 0 * (m : Int) := Int.mul_le_mul_of_nonneg_right (by omega) (by omega)
+      rw [Int.add_mul, Int.one_mul, Int.zero_mul] at this
+      omega
+  have hrhe : roundHalfEven s m = c := by rw [hsm]; exact C16.roundHalfEven_exact c m hm
+  have htm : t = (c + z) * (m : Int) := by rw [ht, hsm, Int.add_mul]
+  refine ⟨⟨c + z, by rw [htm, Int.mul_comm]⟩, ?_⟩
+  have hdiv : t / (m : Int) = c + z := by rw [htm]; exact Int.mul_ediv_cancel _ (by omega)
+  rw [hdiv]
+  rw [hrhe] at hg
+  have e : (c + (z : Int)).toNat = c.toNat + z := by omega
+  rw [e]; exact hg
+
+/-- **A6, proved counter-example**: with a step that is not a whole number of samples the result leaves
+the sample grid although the target is on it (`m = 2`: ticks are half samples; step 5 ticks = 2.5
+samples; target 0; result 7 ticks = sample position 3.5).  Replayed on the code: rate 8, samples
+`[5,3,2,1,-1,-4]`, `findNearestZeroCrossing(0.0, 0.3125) = 0.4375`. -/
+theorem result_on_grid_counterexample :
+    searchList 2 [5, 3, 2, 1, -1, -4] 0 5 = .ok 7 ∧ ¬ ((2 : Int) ∣ 7) := by decide
+
+/-! ## 10. (e) errors_documented -/
+
+/-- **errors_documented**: on a recording of whole samples the search raises `ArgumentError` exactly when
+the step is shorter than two samples, and otherwise nothing but `FindZeroCrossingError` -/
+theorem errors_documented (m : Nat) (hm : 0 < m) (xs : List Int) (target step : Int) (e : Err)
+    (h : searchList m xs target step = .error e) :
+    (step < 2 * (m : Int) ∧ e = .ArgumentError) ∨ (2 * (m : Int) ≤ step ∧ e = .FindZeroCrossingError) := by
+  by_cases hs : step < 2 * (m : Int)
+  · rw [searchList_small_step m xs target step hs] at h
+    cases h; exact Or.inl ⟨hs, rfl⟩
+  · have hs' : 2 * (m : Int) ≤ step := by omega
+    refine Or.inr ⟨hs', ?_⟩
+    have hl := searchList_loop m hm xs target step hs'
+    rw [h] at hl
+    rcases loop_error _ m _ target step e _ target target hl with h1 | ⟨a, b, h1⟩
+    · exact h1
+    · obtain ⟨l, r, hr, _⟩ := round_list m hm xs (durOf m xs) step a b
+      rw [hr] at h1; cases h1
+
+/-- a recording without a zero sample whose samples all have the same sign -/
+def Flat (xs : List Int) : Prop := (0 : Int) ∉ xs ∧ ∀ a ∈ xs, ∀ b ∈ xs, sign a = sign b
+
+theorem flat_of_pos (xs : List Int) (h : ∀ x ∈ xs, 0 < x) : Flat xs := by
+  refine ⟨fun h0 => by have := h 0 h0; omega, ?_⟩
+  intro a ha b hb
+  have h1 := h a ha; have h2 := h b hb
+  unfold sign; rw [if_pos h1, if_pos h2]
+
+theorem flat_of_neg (xs : List Int) (h : ∀ x ∈ xs, x < 0) : Flat xs := by
+  refine ⟨fun h0 => by have := h 0 h0; omega, ?_⟩
+  intro a ha b hb
+  have h1 := h a ha; have h2 := h b hb
+  unfold sign; rw [if_neg (by omega), if_pos h1, if_neg (by omega), if_pos h2]
+
+theorem iter_flat (m : Nat) (xs : List Int) (hf : Flat xs) (dur start : Int) (within : Bool) (step : Int) (rev : Bool) :
+    iterZeroCrossings (listReader m xs) m dur start within step rev = .ok none := by
+  unfold iterZeroCrossings
+  cases within with
+  | false => rfl
+  | true =>
+    simp only [Bool.not_true, Bool.false_eq_true, if_false, listReader]
+    unfold findNextZeroCrossing
+    rw [nextIdx_none]
+    · rfl
+    · intro h0; exact hf.1 (mem_of_mem_slice xs _ _ 0 h0)
+    · intro a ha b hb; exact hf.2 a (mem_of_mem_slice xs _ _ a ha) b (mem_of_mem_slice xs _ _ b hb)
+
+theorem round_flat (m : Nat) (xs : List Int) (hf : Flat xs) (dur step a b : Int) :
+    Zero.round (listReader m xs) m dur step a b = .ok (none, none) := by
+  unfold Zero.round
+  rw [iter_flat m xs hf]; simp only; rw [iter_flat m xs hf]
+
+/-- **no crossing → the documented error**: on an all-positive (or all-negative) recording every call
+with an admissible step raises `FindZeroCrossingError`, never a value -/
+theorem no_crossing_error (m : Nat) (hm : 0 < m) (xs : List Int) (hf : Flat xs) (target step : Int)
+    (hs : 2 * (m : Int) ≤ step) :
+    searchList m xs target step = .error .FindZeroCrossingError := by
+  cases h : searchList m xs target step with
+  | ok t =>
+    exfalso
+    obtain ⟨_, a, b, l, r, _, hr, hsome, _⟩ :=
+      searchList_ok m hm xs target step t (fun _ _ => True) trivial (fun _ _ _ => trivial) h
+    rw [round_flat m xs hf] at hr
+    simp only [Except.ok.injEq, Prod.mk.injEq] at hr
+    obtain ⟨rfl, rfl⟩ := hr
+    simp at hsome
+  | error e =>
+    rcases errors_documented m hm xs target step e h with ⟨h1, _⟩ | ⟨_, h2⟩
+    · omega
+    · rw [h2]
+
+theorem all_positive_error (m : Nat) (hm : 0 < m) (xs : List Int) (hpos : ∀ x ∈ xs, 0 < x) (target step : Int)
+    (hs : 2 * (m : Int) ≤ step) : searchList m xs target step = .error .FindZeroCrossingError :=
+  no_crossing_error m hm xs (flat_of_pos xs hpos) target step hs
+
+/-! ## 11. (b, continued) A16: the number of rounds is not bounded by the recording -/
+
+theorem loop_none_flat (m : Nat) (xs : List Int) (hf : Flat xs) (dur target step : Int) (hs : 0 ≤ step) :
+    ∀ (fuel : Nat) (left right : Int), (fuel : Int) * step ≤ left + step →
+      loop (listReader m xs) m dur target step fuel left right = none := by
+  intro fuel
+  induction fuel with
+  | zero => intro left right _; rfl
+  | succ f ih =>
+    intro left right h
+    have e : ((f + 1 : Nat) : Int) * step = (f : Int) * step + step := by
+      rw [Int.natCast_add, Int.add_mul]; simp
+    rw [e] at h
+    have hf0 : 0 ≤ (f : Int) * step := Int.mul_nonneg (by omega) hs
+    unfold loop
+    rw [round_flat m xs hf]
+    simp only [Option.isSome_none, Bool.or_self, Bool.false_eq_true, if_false]
+    rw [if_neg (by omega)]
+    exact ih _ _ (by omega)
+
+/-- **search_rounds_unbounded (A16)**: the number of rounds the loop needs is not bounded in terms of
+the recording and the step: for every `N` the target `N·step` on a recording without a crossing keeps
+the loop running for more than `N` rounds (it then raises `FindZeroCrossingError`, by
+`no_crossing_error`).  The real loop needs the same `|target|/timeStep` rounds, and in binary64 it
+never leaves once `target - timeStep == target`. -/
+theorem search_rounds_unbounded (m : Nat) (xs : List Int) (hf : Flat xs) (step : Int)
+    (hs : 2 * (m : Int) ≤ step) (N : Nat) :
+    findFuel (listReader m xs) m (durOf m xs) ((N : Int) * step) step N = none := by
+  unfold findFuel
+  rw [if_neg (by omega)]
+  exact loop_none_flat m xs hf _ _ step (by omega) N _ _ (by omega)
+
+/-- for targets inside the recording the bound depends on duration and step only -/
+theorem searchBound_inside (dur target step : Int) (hs : 0 < step) (h0 : 0 ≤ target) (h1 : target ≤ dur) :
+    searchBound dur target step ≤ (dur / step).toNat + 2 := by
+  unfold searchBound
+  have : (max (max target (dur - target)) 0) / step ≤ dur / step :=
+    Int.ediv_le_ediv hs (by omega)
+  omega
+
+/-! ## 12. (e, continued) an all-zero recording -/
+
+/-- **all_zero**: on an all-zero recording a target on a sample position with room for one step to its
+right is returned itself -/
+theorem all_zero_target (m : Nat) (hm : 0 < m) (xs : List Int) (hz : ∀ x ∈ xs, x = 0) (k step : Int)
+    (hk : 0 ≤ k) (hs : 2 * (m : Int) ≤ step) (hroom : k * (m : Int) + step < durOf m xs) :
+    searchList m xs (k * (m : Int)) step = .ok (k * (m : Int)) := by
+  have hmpos : (0 : Int) < m := by omega
+  have hkm : 0 ≤ k * (m : Int) := Int.mul_nonneg hk (by omega)
+  have hkn : k < xs.length := by
+    have h1 : k * (m : Int) < (xs.length : Int) * (m : Int) := by
+      have : k * (m : Int) + step < (xs.length : Int) * (m : Int) := hroom
+      omega
+    exact Int.lt_of_mul_lt_mul_right h1 (by omega)
+  -- the right window of the first round starts at the target and is not empty
+  have hright : iterZeroCrossings (listReader m xs) m (durOf m xs) (k * (m : Int))
+      (decide (k * (m : Int) + step < durOf m xs)) (step + m) false = .ok (some (k * (m : Int))) := by
+    unfold iterZeroCrossings
+    rw [decide_eq_true hroom]
+    simp only [Bool.not_true, Bool.false_eq_true, if_false, listReader]
+    have hfst : (getInterval (k * (m : Int)) (step + m) (durOf m xs) false).1 = k * (m : Int) := by
+      rw [getInterval_fst]; simp only [Bool.false_eq_true, if_false]; rw [if_neg (by omega)]
+    have hsnd : k * (m : Int) + (m : Int) ≤ (getInterval (k * (m : Int)) (step + m) (durOf m xs) false).2 := by
+      unfold getInterval
+      simp only [Bool.false_eq_true, if_false]
+      rw [if_neg (by omega)]
+      split <;> simp only <;> omega
+    rw [hfst]
+    generalize (getInterval (k * (m : Int)) (step + m) (durOf m xs) false).2 = e at hsnd
+    have hi : roundHalfEven (k * (m : Int)) m = k := C16.roundHalfEven_exact k m hm
+    have hj : k + 1 ≤ roundHalfEven e m := by
+      have := C16.roundHalfEven_mono _ _ m hm hsnd
+      have e1 : k * (m : Int) + (m : Int) = (k + 1) * (m : Int) := by rw [Int.add_mul, Int.one_mul]
+      rw [e1, C16.roundHalfEven_exact (k + 1) m hm] at this
+      exact this
+    rw [hi]
+    generalize roundHalfEven e m = j at hj
+    -- the window is a non-empty list of zeros
+    have hlen : 0 < (slice xs k j).length := by
+      unfold slice pyClamp
+      simp only [List.length_drop, List.length_take]
+      rw [if_neg (by omega), if_neg (by omega)]
+      omega
+    cases hys : slice xs k j with
+    | nil => rw [hys] at hlen; simp at hlen
+    | cons y ys =>
+      have hy : y = 0 := hz y (mem_of_mem_slice xs k j y (by rw [hys]; simp))
+      subst hy
+      unfold findNextZeroCrossing nextIdx nearestZero find
+      simp only [Bool.false_eq_true, if_false]
+      rw [index?_head]
+      simp
+  obtain ⟨l, hl, _⟩ := iter_cand m hm xs (durOf m xs) (k * (m : Int)) (decide (0 < k * (m : Int))) (step + m) true
+  have hround : Zero.round (listReader m xs) m (durOf m xs) step (k * (m : Int)) (k * (m : Int)) =
+      .ok (l, some (k * (m : Int))) := by
+    unfold Zero.round; rw [hl]; simp only; rw [hright]
+  have hloop := searchList_loop m hm xs (k * (m : Int)) step hs
+  obtain ⟨f, hf, _, _⟩ := searchBound_spec (durOf m xs) (k * (m : Int)) step (by omega)
+  rw [hf] at hloop
+  unfold loop at hloop
+  rw [hround] at hloop
+  simp only [Option.isSome_some, Bool.or_true, if_true, Option.some.injEq] at hloop
+  obtain ⟨v, hv⟩ := chooseClosest_ok_of_some (k * (m : Int)) l (some (k * (m : Int))) (by simp)
+  have hsp := (chooseClosest_spec _ _ _ v hv).2.2.1 (k * (m : Int)) rfl
+  have hveq : v = k * (m : Int) := by omega
+  rw [← hloop, hv, hveq]
+
+end C18
